@@ -485,7 +485,7 @@ func (f *PF[E, FP, F]) Case(t *rapid.T) {
 }
 
 func TestFieldOps(t *testing.T) {
-	vlib.Check(t, 12000, func(t *rapid.T) {
+	vlib.Check(t, 16000, func(t *rapid.T) {
 		fs := primeFields()
 		fs[rapid.IntRange(0, len(fs)-1).Draw(t, "field")].Case(t)
 	})
